@@ -223,7 +223,9 @@ func (a *Operator) useHexBackslashes(input string) string {
 // to be interpreted as a literal.
 func (a *Operator) includeVerticalTabInSpaceClass(input string) string {
 	logger.Trace().Msg("Fixing up regex to include vertical tab (VT) in white space class matches")
-	return strings.ReplaceAll(input, `\t\n\f\r `, `\s\x0b`)
+	// A space that starts a range (e.g., `[\s -z]`) must remain the start of that range.
+	result := strings.ReplaceAll(input, `\t\n\f\r -`, `\s\x0b -`)
+	return strings.ReplaceAll(result, `\t\n\f\r `, `\s\x0b`)
 }
 
 // rassemble-go doesn't provide an option to specify literals.
